@@ -724,11 +724,12 @@ impl<H: DnsHandle> DnssecDnsHandle<H> {
                 }
             }
             Ok(response) => {
-                if !response
-                    .answers
-                    .iter()
-                    .any(|r| r.record_type() == RecordType::DS)
-                {
+                // Only a validated *negative* response (or a response from an insecure parent,
+                // which has no RRSIGs to offer) shows that the delegation is insecure.  A
+                // response whose answer section merely lacks the DS records, but still carries
+                // something else (such as the RRSIG left over after the DS RRs were stripped in
+                // transit), did not go through any denial-of-existence check and proves nothing.
+                if response.answers.is_empty() {
                     debug!(
                         %zone,
                         "marking zone as insecure based on secure NSEC/NSEC3 proof or insecure parent zone",
